@@ -12,6 +12,7 @@ import KyupyVerif.Proofs.Solve
 import KyupyVerif.Proofs.GenOpsWO
 import KyupyVerif.Proofs.StripLink
 import KyupyVerif.Proofs.MemMapSpec
+import KyupyVerif.Proofs.LinesDriven
 import KyupyVerif.Gen.Tables
 import KyupyVerif.Drv.Registry
 /-! Line protocol driver: one request per line on stdin, one answer per line on stdout.
@@ -248,6 +249,10 @@ def step (st : DState) (line : String) : DState × String :=
       -- hypotheses of KV.C08.simops_map_accepted on the loaded netlist and the given (real) topological order
       let o := parseNats order
       (st, s!"wf={st.net.wfB} order={orderOKB st.net o} forks={strip != "1" || forksOKB st.net o} reads={readsDrivenB Gen.kindPrefixes st.net o}")
+  | ["netspeccert", order] =>
+      -- hypotheses of KV.C02.sim8_netlist_all_circuits / oracle_labelling_is_simulation on the loaded netlist and order
+      let o := parseNats order
+      (st, s!"forks={forksOKB st.net o} lines={linesDrivenB Gen.kindPrefixes st.net o}")
   | ["forkcert", order] =>
       -- hypotheses of KV.C06.genOps_strip_link on the loaded netlist, and the branch ↦ stem list of the model
       let pairs := (stemList st.net).map fun (b, s) => s!"{b}:{s}"
